@@ -281,17 +281,17 @@ class Srv:
         h = self.h("validate")
         if h:
             ent, ex = h.arm("Init")
-            self.edge_simple(h, "validate×Init", ent, ex, must=[("set_state", "ValidateRequested")], never=["reply_ok", "reply_err", "reply"], no_break=True)
+            self.edge_simple(h, "validate×Init", ent, ex, must=[("set_state", "ValidateRequested")], never=["reply_ok", "reply_err", "reply"], no_break=True, state="Init")
             ent, ex = h.arm("AwaitingValidation")
             self.edge_validated(h, "validate×AwaitingValidation", ent, ex, ("ScheduleError", "ValidateError"))
         h = self.h("run")
         if h:
             ent, ex = h.arm("Validated")
             self.edge_simple(h, "run×Validated", ent, ex, must=[("insert_consts", None), ("set_state", "SendingConsts"), ("self_cmd", "InternalConstsSent")],
-                             some=[("reply_ok", None), ("client", "consts")], never=["reply_err"], no_break=True)
+                             some=[("reply_ok", None), ("client", "consts")], never=["reply_err"], no_break=True, state="Validated")
             ent, ex = h.arm("Running")
             self.edge_simple(h, "run×Running", ent, ex, must=[("permit_take", None), ("set_state", "Executing"), ("spawn", None), ("mpc", None)],
-                             some=[("self_cmd", "Stop"), ("client", "output")], never=["reply_err"], no_break=False)
+                             some=[("self_cmd", "Stop"), ("client", "output")], never=["reply_err"], no_break=False, state="Running")
             self.task_rules(h)
         h = self.h("consts")
         if h:
